@@ -153,7 +153,7 @@ func (g *gen) havocThrough(a Val, t types.Type, st State, reach string, depth in
 	}
 	switch u := t.Underlying().(type) {
 	case *types.Pointer:
-		switch su := u.Elem().Underlying().(type) {
+		switch su := locUnder(u.Elem()).(type) {
 		case *types.Struct:
 			ss := g.ctx.sortOf(u.Elem())
 			if isSyncType(u.Elem()) {
@@ -478,8 +478,11 @@ func (g *gen) callContract(x *ssa.Call, fc *FuncContract, name string, args []Va
 			g.contractError(cl, fmt.Errorf("at call to %s: %v", name, err))
 			continue
 		}
-		o := g.oblige("callpre", fmt.Sprintf("%s.call.%s.%d.requires.%s", g.fnKey, name, nth, cl.Label), "precondition of "+name+": "+cl.Src, x.Pos(), reach, t)
-		_ = o
+		if strings.HasPrefix(cl.Label, "panic.") {
+			g.panicCheck("call."+strings.TrimPrefix(name, "(")+"."+strings.TrimPrefix(cl.Label, "panic."), x.Pos(), reach, t, name+" panics unless "+cl.Src)
+			continue
+		}
+		g.oblige("callpre", fmt.Sprintf("%s.call.%s.%d.requires.%s", g.fnKey, name, nth, cl.Label), "precondition of "+name+": "+cl.Src, x.Pos(), reach, t)
 	}
 	// havoc what the callee may modify
 	g.applyModifies(fc, args, argTypes, st, reach)
@@ -557,6 +560,18 @@ func mentionsAny(e *Expr, names map[string]bool) bool {
 func (g *gen) applyModifies(fc *FuncContract, args []Val, argTypes []types.Type, st State, reach string) {
 	for _, m := range fc.Modifies {
 		switch {
+		case strings.HasPrefix(m, "elems_of(") && strings.HasSuffix(m, ")"):
+			pn := m[len("elems_of(") : len(m)-1]
+			found := false
+			for i, n := range fc.ParamNames {
+				if n == pn && i < len(args) {
+					g.havocThrough(args[i], argTypes[i], st, reach, 0)
+					found = true
+				}
+			}
+			if !found {
+				g.unsupported = append(g.unsupported, fmt.Sprintf("contract: %s: modifies %s names no parameter", fc.Key, m))
+			}
 		case m == "*":
 			for _, c := range g.ctx.sortedComps() {
 				if c == "alloctop" {
